@@ -325,11 +325,13 @@ func execC10(t *testing.T, prog *hx.Program, dec *simrt.Decider, verbose bool) *
 					}
 				}
 				switch {
-				case readonly && hw < newest:
-					// read-only with an uncommitted tail: whether such a subscription ends or waits for the
-					// high watermark is not documented
+				case readonly && hw < newest && Sreq > newest:
+					// read-only with an uncommitted tail and nothing in range: ends or waits, not documented
 					spec = false
-				case readonly && S > newest:
+				case readonly && hw < newest && !(E >= 0 && E <= hw):
+					// read-only, but the end of the log is not committed yet: the subscription has not reached
+					// "the end of the log" and keeps waiting for the high watermark
+				case readonly && Sreq > newest:
 					// nothing can ever be in range on a read-only partition: it ends; with which status is not documented
 					endsByItself = true
 					anyEnd = true
